@@ -193,6 +193,18 @@ func (e *rangeEnv) rangeOf(v ssa.Value, at *ssa.BasicBlock) ivl {
 					r = ivl{at2.Len(), at2.Len(), true}
 				}
 			}
+		} else if bi, isB := x.Call.Value.(*ssa.Builtin); isB && bi.Name() == "copy" && len(x.Call.Args) == 2 {
+			// copy returns at most the length of either operand
+			r = ivl{0, ivInf, true}
+			for _, a := range x.Call.Args {
+				if sl, isSl := a.(*ssa.Slice); isSl && sl.Low == nil && sl.High == nil {
+					if pt, isP := sl.X.Type().Underlying().(*types.Pointer); isP {
+						if at2, isA := pt.Elem().Underlying().(*types.Array); isA && at2.Len() < r.hi {
+							r.hi = at2.Len()
+						}
+					}
+				}
+			}
 		} else if callee != nil && callee.Blocks != nil && e.c.InModule(callee) && len(callee.Params) <= 3 {
 			first := true
 			for _, b := range callee.Blocks {
